@@ -33,15 +33,21 @@ def actionAssociation : P Sx := do
   ws; let _ ← tok "RightParen"
   pure (.n "ActionAssociation" [("name", name), ("qualifier", Sx.opt q), ("indicators", .l (inds.getD []))])
 
+/-- `action_associations() = a:action_association() ** (_ ; _) _ semicolon()? {a}` -/
+def actionAssociations : P (List Sx) := do
+  let aa ← sepBy actionAssociation (do ws; semicolon; ws)
+  ws; let _ ← opt semicolon
+  pure aa
+
 def initialStep : P Sx := do
   let _ ← tok "InitialStep"; ws; let name ← identifier; ws; let _ ← tok "Colon"; ws
-  let aa ← sepBy actionAssociation (do ws; semicolon; ws)
-  let _ ← tok "EndStep"
+  let aa ← actionAssociations
+  ws; let _ ← tok "EndStep"
   pure (.n "Step" [("name", name), ("action_associations", .l aa)])
 
 def step : P Sx := do
   let _ ← tok "Step"; ws; let name ← identifier; ws; let _ ← tok "Colon"; ws
-  let aa ← semisep actionAssociation
+  let aa ← actionAssociations
   ws; let _ ← tok "EndStep"
   pure (.t "Step" [.n "Step" [("name", name), ("action_associations", .l aa)]])
 
@@ -229,9 +235,9 @@ def configurationDeclaration : P Sx := do
   let _ ← tok "Configuration"; ws; let n ← identifier; ws
   let g ← opt globalVarDeclarations; ws
   let r ← resourceDeclaration; ws
-  let inits ← opt (do let _ ← tok "VarConfig"; ws; let i ← semisepOneplus instanceSpecificInit; ws; let _ ← tok "EndVar"; pure i)
+  let inits ← sepBy (do let _ ← tok "VarConfig"; ws; let i ← semisepOneplus instanceSpecificInit; ws; let _ ← tok "EndVar"; pure i) ws
   ws; let _ ← tok "EndConfiguration"
-  let is := inits.getD []
+  let is := inits.flatten
   pure (.n "ConfigurationDeclaration" [("name", n), ("global_var", .l (g.getD [])), ("resource_decl", .l [r]),
     ("fb_inits", .l ((is.filter (·.1 == "fb")).map (·.2))), ("located_var_inits", .l ((is.filter (·.1 == "located")).map (·.2)))])
 
